@@ -49,6 +49,7 @@ def setup(ctx):
     ctx.require("monitor", "successive_contexts", 12)
     ctx.require("monitor", "contexts_built_under_operator_environment", 6)
     ctx.require("monitor", "wired_through_environment", 5)
+    ctx.require("monitor", "probes_under_python_O", 12)
     ctx.require("monitor", "new_version_ok", 8)
     ctx.require("monitor", "old_version_attempts_client", 3)
     ctx.require("monitor", "faulty_material_starts", 30)
@@ -757,6 +758,77 @@ def run(ctx):
                 ctx.count("monitor", "contexts_built_under_operator_environment")
             gc.collect()
             ctx.count("monitor", "successive_contexts")
+        # ---- the same factories in an interpreter started with -O (assert statements compiled away, __debug__ false):
+        # a deployment choice like any other; the contexts it builds have the same floor
+        import json as _json
+        import subprocess
+        import sys as _sys
+
+        child = (
+            "import sys, json, asyncio\n"
+            "sys.path.insert(0, %r)\n"
+            "import vf; vf.use_repo()\n"
+            "from checks import c20 as m\n"
+            "from vf import live\n"
+            "from vf.gen import certs\n"
+            "from nauyaca.security.pyopenssl_tls import create_pyopenssl_server_context\n"
+            "from nauyaca.security.tls import create_server_context\n"
+            "from nauyaca.server.protocol import GeminiServerProtocol\n"
+            "from nauyaca.server.tls_protocol import TLSServerProtocol\n"
+            "from nauyaca.protocol.response import GeminiResponse\n"
+            "ident = certs.identity('live-server', 'ec')\n"
+            "out = {'debug': __debug__, 'cells': []}\n"
+            "h = lambda req: GeminiResponse(status=20, meta='text/gemini', body='ok\\n')\n"
+            "for req in (False, True):\n"
+            "    c = create_pyopenssl_server_context(ident.certfile, ident.keyfile, request_client_cert=req)\n"
+            "    c.set_cipher_list(b'ALL:@SECLEVEL=0')\n"
+            "    async def main_s(c=c):\n"
+            "        loop = asyncio.get_running_loop()\n"
+            "        server = await loop.create_server(lambda: TLSServerProtocol(lambda: GeminiServerProtocol(h), c), '127.0.0.1', 0)\n"
+            "        async with server:\n"
+            "            await server.serve_forever()\n"
+            "    lt = live._LoopThread(); lt.start(main_s)\n"
+            "    try:\n"
+            "        for vname, v in m.VERSIONS[:3]:\n"
+            "            r = m.try_handshake(lt.port, m.permissive_client(v, v))\n"
+            "            out['cells'].append(['create_pyopenssl_server_context:request_client_cert=%%s:seclevel0' %% req, 'pyopenssl', vname, [str(x) for x in r[:2]]])\n"
+            "    finally:\n"
+            "        lt.stop()\n"
+            "    sc = create_server_context(ident.certfile, ident.keyfile, request_client_cert=req)\n"
+            "    sc.set_ciphers('ALL:@SECLEVEL=0')\n"
+            "    with m.RawTLSServer(sc) as rs:\n"
+            "        for vname, v in m.VERSIONS[:3]:\n"
+            "            r = m.try_handshake(rs.port, m.permissive_client(v, v))\n"
+            "            out['cells'].append(['create_server_context:request_client_cert=%%s:seclevel0' %% req, 'stdlib', vname, [str(x) for x in r[:2]]])\n"
+            "print('CHILD-RESULT ' + json.dumps(out))\n"
+        ) % (os.path.dirname(os.path.dirname(os.path.abspath(__file__))),)
+        env = dict(os.environ, VF_LOG_MODE="")
+        try:
+            cp = subprocess.run([_sys.executable, "-O", "-c", child], capture_output=True, text=True, timeout=180, env=env)
+            line = next((ln for ln in cp.stdout.splitlines() if ln.startswith("CHILD-RESULT ")), None)
+        except subprocess.TimeoutExpired:
+            cp, line = None, None
+        if line is None:
+            ctx.inconclusive_because("the -O child interpreter produced no result: " + ((cp.stderr or "")[-300:] if cp else "timeout"))
+        else:
+            res_o = _json.loads(line[len("CHILD-RESULT "):])
+            if res_o["debug"]:
+                ctx.inconclusive_because("the child interpreter was not running with -O")
+            for label, kind, vname, r in res_o["cells"]:
+                label_o = label + ":python -O"
+                ctx.count("monitor", "probes_under_python_O")
+                wit = {"side": "server", "context": label_o, "offered": vname, "result": r, "interpreter": "python -O (__debug__ is False)"}
+                if vname in OLD:
+                    ctx.count("monitor", "old_version_attempts_server")
+                    if r[0] == "ok":
+                        ctx.violation(f"old-version-negotiated:context={label}:interpreter=-O:version={r[1]}", f"{label_o} completed a handshake at {r[1]}", wit)
+                    elif not controls.get((kind, vname)):
+                        ctx.inconclusive_because(f"no working control for {kind}/{vname}: refusal by {label_o} proves nothing")
+                    else:
+                        ctx.count("outcome", f"refused:{label_o}:{vname}")
+                elif r[0] != "ok":
+                    ctx.undecided(f"modern-handshake-refused-under-O:{vname}:{r[1]}")
+                ctx.case(("server", label_o, vname, r[0]), True, sample=wit)
         with live.ProtocolServer(lambda: GeminiServerProtocol(handler), backend="stdlib", server_ident=ident) as ps2:
             plaintext_probe(ctx, "create_server_context+spy-handler", ps2.port, handler_calls=handler_calls)
         if ctx.shard == 0 or ctx.nshards == 1:
